@@ -362,3 +362,24 @@ PROPS["C14"] = {
     "assumptions": ["the UTF-16 editor model in harness/src/lsp.rs (lines split on LF, CR belongs to the terminator) is the trusted base"],
     "design_ref": "DESIGN.md section 3, C14",
 }
+
+PROPS["C15"] = {
+    "engine": "c15",
+    "builds": ["lsp"],
+    "level": "exploration",
+    "technique": "token-sequence oracle (trust_syntax::lex before/after) over edits returned by the real trust-lsp binary for full, range and on-type formatting under random configurations, applied with a UTF-16 editor model; same oracle on the web IDE formatter",
+    "quick": {"shards": 8, "budget_s": 30, "watchdog_s": 900},
+    "thorough": {"shards": 16, "budget_s": 420, "watchdog_s": 3600},
+    "floor": {"quick": 100, "thorough": 3000},
+    "require_counters": {"quick": {"full_formats_checked": 100, "range_formats_checked": 300, "ontype_formats_checked": 300, "webide_formats_checked": 100}, "thorough": {"full_formats_checked": 3000}},
+    "rule": "texts: 12 built-in programs (all statement kinds, CRLF, comments/pragmas/strings mixed on one line, long lines, syntax errors), token-level mutants of them, every .st file < 6 kB under "
+            "/repo and mutants of those, and the adjacent-token gluing matrix (39 x 39 token pairs, spaced and unspaced; cells are consumed round-robin, thorough completes it). configs: random subsets "
+            "of indentWidth {1,2,4,8}, insertSpaces, keywordCase, alignVarDecls, alignAssignments, maxLineLength {10,20,40,80,120}, spacingStyle, endKeywordStyle via didChangeConfiguration + "
+            "FormattingOptions. distinct = (text, config); non-trivial = formatting changed the text or range/on-type returned >= 1 edit",
+    "level_text": "For each (text, config): full formatting -> non-trivia tokens equal (keywords case-insensitively, everything else byte-exact), comments/pragmas/string literals equal and in order; "
+                  "formatting the result again changes nothing; 3 random line ranges through rangeFormatting and 3 on-type positions (after ';' and newline) -> the returned edits must apply on "
+                  "character boundaries, not overlap, and preserve the same token sequence.",
+    "level_note": "Comments are compared line-wise with surrounding blanks trimmed (re-indenting continuation lines of a block comment is layout). Vendor profiles need a workspace config file and are not exercised.",
+    "assumptions": ["trust_syntax::lex is the token oracle (its own totality/losslessness is C12)"],
+    "design_ref": "DESIGN.md section 3, C15",
+}
